@@ -370,7 +370,7 @@ def main(modname, argv=None):
         sub = [dict(cases[i], timeout=cases[i].get('timeout', timeout)) for i in rerun_idx]
         pool2 = Pool(modname, min(args.workers, len(sub)), timeout)
         for j, kind, payload in pool2.run(sub, None):
-            rerun_sigs[rerun_idx[j]] = set(x['sig'] for x in payload.get('violations', [])) if kind == 'ok' else {kind}
+            rerun_sigs[rerun_idx[j]] = set(x['sig'] for x in payload.get('violations', [])) if kind == 'ok' else ({'harness-exception:' + payload[0][:120]} if kind == 'exc' else {kind})
     for idx, v in unknown:
         if idx in rerun_sigs:
             v['reproduced_on_rerun'] = v['sig'] in rerun_sigs[idx]
